@@ -99,3 +99,28 @@ func H_C01_file() {
 		verifAssert(err2 == nil && fmtd.String() == specGofmt(raw.String()), "the formatted file is gofmt of the raw rendering")
 	}
 }
+
+// literal values inside a larger expression: the literal's text denotes its value (details: C11, C12)
+func H_C01_literals() {
+	f := NewFile("p")
+	switch nondetChoice("kind", 3) {
+	case 0:
+		s := nondetString("s")
+		out, _ := c14raw(Id("x").Op("=").Lit(s), f)
+		verifAssert(len(out) > 4 && out[:4] == "x = ", "assignment of a literal")
+		if len(out) > 4 {
+			verifAssert(specUnquotesTo(out[4:], s), "a string literal denotes exactly its value")
+		}
+	case 1:
+		v := nondetInt("v", -9223372036854775808, 9223372036854775807)
+		out, _ := c14raw(Return(Lit(v)), f)
+		verifAssert(len(out) > 7 && out[:7] == "return ", "return of a literal")
+		if len(out) > 7 {
+			verifAssert(specIntConstIs(out[7:], "int", v), "an int literal denotes exactly its value")
+		}
+	case 2:
+		b := nondetBool("b")
+		out, _ := c14raw(Lit(b), f)
+		verifAssert(specBoolConstIs(out, b), "a bool literal denotes its value")
+	}
+}
